@@ -49,10 +49,12 @@ def superpose(mobile, target, method='svd', only_backbone=True, export=True, **k
     selection_mobile = np.array(sql_mobile.get("x,y,z", **kwargs))
     selection_target = np.array(sql_target.get("x,y,z", **kwargs))
 
-    # deal with the cases where some res are missing/added
-    if len(selection_mobile) != len(selection_target):
+    # deal with the cases where some res are missing/added: the two
+    # selections can be paired row by row only if they hold the same atoms
+    atom_id = 'name,resName,resSeq,chainID'
+    if sql_mobile.get(atom_id, **kwargs) != sql_target.get(atom_id, **kwargs):
         warnings.warn(
-            'selection have different size, getting intersection')
+            'selection have different atoms, getting intersection')
         selection_mobile, selection_target = get_intersection(
             sql_mobile, sql_target, **kwargs)
 
